@@ -266,7 +266,8 @@ def h_component(m: int, cm: int, shard=None) -> None:
             if sweep_should_stop():
                 return
             for ptags in itertools.chain.from_iterable(itertools.combinations(ids, k) for k in range(len(ids) + 1)):
-                for pmatch in (set(), {ids[-1]}, {ids[0]}):
+                # (a matching parent commit in the middle: a reported parent build that keeps the pin, between two builds that move it)
+                for pmatch in ([set(), {ids[-1]}, {ids[0]}] + ([{ids[len(ids) // 2]}] if len(ids) > 2 else [])):
                     run_component_case(m, cmatch, shard["parent"], pins, set(ptags), pmatch, shard.get("ncomp", 1), shard.get("double_top", False))
 
 
